@@ -267,18 +267,105 @@ func runC06R2(c *Ctx) {
 		mu := in.(*ssa.MapUpdate)
 		n++
 		okSame := mu.Block() == add.Block()
-		// find store to clusterWeight field of the literal
-		wsame := false
-		forEachInstr(fn, false, func(_ *ssa.Function, x ssa.Instruction) {
-			if s, ok := x.(*ssa.Store); ok {
-				if _, f, _, ok := fieldAddrInfo(s.Addr); ok && f == "clusterWeight" {
-					if _, f2, b2, ok2 := loadedField(s.Val); ok2 && f2 == "Weight" && sameAddrBase(b2, wbase) {
-						wsame = true
+		// the weight the entry is given: the item's own Weight plus what an entry of the same name already holds. The table
+		// is keyed by cluster name, so a plain `clusterWeight = Weight` loses the weight of an earlier entry of that name
+		// while the total keeps it: the entries then no longer add up to the total and the missing share of the draws
+		// selects no weighted cluster at all.
+		isW := func(v ssa.Value) bool {
+			_, f2, b2, ok2 := loadedField(v)
+			return ok2 && f2 == "Weight" && sameAddrBase(b2, wbase)
+		}
+		var lookup *ssa.Lookup
+		isPrev := func(v ssa.Value) bool {
+			// m[key].clusterWeight, directly or through a local copy of the looked-up entry
+			if fv, ok := v.(*ssa.Field); ok {
+				if lk, ok := fv.X.(*ssa.Lookup); ok && lk.X == mu.Map && derefStructField(fv) == "clusterWeight" {
+					lookup = lk
+					return true
+				}
+				if ex, ok := fv.X.(*ssa.Extract); ok && ex.Index == 0 {
+					if lk, ok := ex.Tuple.(*ssa.Lookup); ok && lk.X == mu.Map && derefStructField(fv) == "clusterWeight" {
+						lookup = lk
+						return true
 					}
 				}
 			}
+			_, f2, b2, ok2 := loadedField(v)
+			if !ok2 || f2 != "clusterWeight" {
+				return false
+			}
+			al, ok := b2.(*ssa.Alloc)
+			if !ok {
+				return false
+			}
+			for _, r := range refs(al) {
+				st, ok := r.(*ssa.Store)
+				if !ok || st.Addr != ssa.Value(al) {
+					continue
+				}
+				src := st.Val
+				if ex, ok := src.(*ssa.Extract); ok && ex.Index == 0 {
+					src = ex.Tuple
+				}
+				if lk, ok := src.(*ssa.Lookup); ok && lk.X == mu.Map {
+					lookup = lk
+					return true
+				}
+			}
+			return false
+		}
+		isSum := func(v ssa.Value) bool {
+			bo, ok := v.(*ssa.BinOp)
+			return ok && bo.Op == token.ADD && ((isW(bo.X) && isPrev(bo.Y)) || (isW(bo.Y) && isPrev(bo.X)))
+		}
+		wsame, accum, why := false, false, "the entry's clusterWeight is not the item's Weight"
+		forEachInstr(fn, false, func(_ *ssa.Function, x ssa.Instruction) {
+			s, ok := x.(*ssa.Store)
+			if !ok {
+				return
+			}
+			if _, f, _, ok := fieldAddrInfo(s.Addr); !ok || f != "clusterWeight" {
+				return
+			}
+			switch v := s.Val.(type) {
+			case *ssa.Phi:
+				sums, plain, other := 0, 0, 0
+				for i, e := range v.Edges {
+					switch {
+					case isSum(e):
+						sums++
+					case isW(e):
+						// the plain weight only where no entry of that name exists yet
+						miss := false
+						for _, g := range edgeGuards(v.Block().Preds[i], v.Block()) {
+							if ex, ok := g.Cond.(*ssa.Extract); ok && ex.Index == 1 && !g.True {
+								if _, isLk := ex.Tuple.(*ssa.Lookup); isLk {
+									miss = true
+								}
+							}
+						}
+						if miss {
+							plain++
+						} else {
+							other++
+						}
+					default:
+						other++
+					}
+				}
+				wsame = sums+plain > 0 && other == 0
+				accum = sums > 0 && other == 0
+			default:
+				if isSum(v) {
+					wsame, accum = true, true
+				} else if isW(v) {
+					wsame = true
+					why = "the entry's clusterWeight is the item's Weight alone: a cluster name that is listed twice keeps only the last weight in the name-keyed table while the total counts both, so the entries no longer add up to the total and that share of the draws falls through to the default cluster"
+				}
+			}
 		})
-		c.Check("C06.R2", fmt.Sprintf("%s:insert#%d", fk, n), mu.Pos(), okSame && wsame, "one addition per inserted entry, same Weight value", "map insert and weight accumulation are not paired one-to-one on the same weight value")
+		_ = lookup
+		c.Check("C06.R2", fmt.Sprintf("%s:insert#%d", fk, n), mu.Pos(), okSame && wsame && accum, "one addition per inserted entry; the entry keeps its Weight plus the weight an entry of the same name already holds", "map insert and weight accumulation do not keep `sum of entries == total`: "+why)
 	}
 	if n == 0 {
 		c.Fail("C06.R2", fk+":insert", fn.Pos(), "no map insert found")
